@@ -2,6 +2,13 @@ SPECIFICATION Spec
 CONSTANTS NT = 1 NS = 2 Kinds = {"sum", "cost", "combined"}
 CONSTANT MetricVals <- ValsQuick
 CONSTANT Deltas <- DeltasQuick
+\* whole lattice for the documented order; every other metric order gets the kind-distinct cubes
+CONSTANT FullOrders <- DocOrdersOnly
+CONSTANT Rotations <- RotQuick
+CONSTANT Deviation = "none"
+INVARIANT RewardIsDocumentedCombination
+INVARIANT NormalisedByKind
+INVARIANT DistinctColumns
 INVARIANT NormalisedAtMostOne
 INVARIANT NormalisedAttainsOne
 INVARIANT NormalisedOrderKept
